@@ -8,10 +8,13 @@ Histories with a second switch (the retry of the same switch, a switch to anothe
 issued after the first one completed, and histories in which a client-side timeout marks a connection for
 replacement while it stays open (orphaned-stream threshold), are explored in configurations of their own.  In the
 'suspend' configurations executor tasks are not atomic: a task (pool creation, connection replacement) is suspended in
-every blocking wait for the answer to a USE of its own, and both switches of the application may happen meanwhile.
+every blocking wait for the answer to a USE of its own, both switches of the application may happen meanwhile, and one
+of those USEs may fail (InvalidRequest, server error, connection lost).
 Schedule layer (engine S): the reactor thread delivering the USE result and the server's answers against the
 executor thread replacing a lost or marked connection / creating a pool (and the application thread issuing a second
-switch), every schedule within the preemption bound.
+switch), every schedule within the preemption bound; in the own-use-fails scenarios the node also fails one of the
+USEs the executor thread sends itself, so the hand-over of a *failing* answer from the reactor thread to the waiting
+executor thread is scheduled line by line.
 The harnesses, the oracle and the canonical state are in vt/c20lib.py.
 """
 from vt import explore, sched
@@ -49,7 +52,11 @@ META = {
             'the application\'s next switch (allowed while only USEs of a task are held), the answer to the task\'s USE, and, '
             'as an event of its own, the task continuing - so zero, one or both switches complete between any two waits '
             'of a pool creation whose pool is not yet the session\'s (renew: the creation task of the last host\'s pool is '
-            'queued when the history starts) or of a connection replacement (one connection loss).  Quick: all histories to depth 7 (convicting, 3 hosts) and the '
+            'queued when the history starts) or of a connection replacement (one connection loss).  In these configurations '
+            'a USE of a task is answered like every pool USE: with success or - at most once per history - with InvalidRequest, '
+            'a server error, or not at all because its connection is lost while it is pending (constructor USE of the new pool, '
+            'catch-up USE, USE on a replacement connection; the task then gives the host up / retries, and the history goes on '
+            'with the reconnection and the next pool creation).  Quick: all histories to depth 7 (convicting, 3 hosts) and the '
             'complete reachable state space of the other configurations; thorough: deeper, with two losses, two switches '
             'also on 3 hosts / convicting / two v2 connections per host, suspended pool creation also with set_keyspace, '
             'back to the first keyspace, a connection loss, 3 hosts.  '
@@ -62,19 +69,33 @@ META = {
             'as soon as USE ks2 has reported its outcome; the result of each of the two statements reaches the client at '
             'a moment the scheduler chooses; every order of the three threads at their blocking points (preemption bound 0; '
             'thorough: also v2 pool creation and v4 connection replacement).  '
+            'Own-use-fails schedule scenarios (quick: v4 pool creation with the session in ks1, v4 connection replacement; '
+            'thorough: also v2, replacement with the session in ks1, replacement of a marked connection, two switches): as above, '
+            'and whenever the executor thread sends a USE of its own the node\'s answer is a choice - success, or once per '
+            'execution InvalidRequest / server error / connection reset instead of an answer; the reactor thread delivers that '
+            'failure at a moment the scheduler chooses and is preempted at any virtual primitive (Event.set of the waiter and '
+            'of the catch-up event included) or source line of Session.add_or_renew_pool and its nested callback, the pool '
+            'constructors, _set_keyspace_for_all_conns of both pool classes and their nested callbacks, HostConnection._replace, '
+            'HostConnectionPool._add_conn_if_under_max / _retrying_replace, Connection.set_keyspace_blocking and '
+            'ResponseWaiter.got_response / deliver, while the executor thread wakes up and goes on (preemption bound 1).  '
             'Oracle, for the latest switch, in every state and again after the default '
             'continuation (every held USE answered successfully, every task run, every scheduled task fired, no client timer): '
             '(1) the switch has completed; (2) if it reports success and no USE of this switch was failed, every probe request '
             'sent afterwards to every pool is carried by a connection on which the *server* has the target keyspace of this '
             'switch selected (the server selects what each USE statement it answers successfully names); (3) if the explorer '
             'failed the USE of any pool in this switch (error answer or connection lost while pending) the switch reports an '
-            'error, and the error of the switch names every failing host.',
+            'error, and the error of the switch names every failing host.  A failed USE of a task is not a USE of the switch '
+            '(the pool or connection is not in service yet), so it is judged by clause (2) alone: a connection on which it '
+            'failed must never carry a request after a switch that reported success.',
     'note': 'Handlers are atomic in the history layer (executor tasks of the suspended-task configurations: atomic between '
             'two blocking waits; one executor worker, the next task starts when the one under way has ended; the blocking waits '
             'of a task do not time out); intra-handler preemption is covered by the schedule layer at source-line '
             'granularity within the preemption bound.  The canonical state of the history layer is compared against no-dedup '
             'runs in the thorough tier.  A client-side request timeout is not counted as the switch completing.  USEs issued '
-            'from executor tasks (blocking ones on replacement connections / new pools) are always answered successfully.  '
+            'from executor tasks (blocking ones on replacement connections / new pools) are answered successfully in the '
+            'configurations with atomic tasks; where they can fail, at most one of them fails per history / execution and none '
+            'times out.  With the never-convicting policy a host whose pool could not be created stays without a pool '
+            '(no request is routed to it; that is not a violation of this property).  '
             'Two overlapping switches are not explored (the next switch is issued only after the previous one completed and '
             'when no USE is held).  In two-switch histories a node does not answer InvalidRequest to the USE of the keyspace '
             'it has selected on that very connection (i.e. the keyspace is not dropped between the application\'s USE and the '
@@ -86,6 +107,9 @@ META = {
 
 KINDS3 = ['ok', 'invalid', 'server_error']
 KINDS2 = ['ok', 'invalid']
+# schedule layer: how the USE an executor task sends itself may fail (at most one failure per execution), and the
+# functions whose lines are scheduling points in those scenarios
+OWN_USE_FAILS = dict(task_faults=('invalid', 'server_error', 'lost'), focus='own-use')
 
 
 def e_configs(ctx):
@@ -109,11 +133,15 @@ def e_configs(ctx):
         ('v4-orphan', dict(two, kinds=KINDS2, max_orphan=1), full),
         # executor tasks suspended in their blocking waits (not atomic): the pool of a host is being created / a lost
         # connection is being replaced while the application switches twice
-        ('v4-renew-2sw', dict(two, ks0='ks1', switches=('ks2', 'ks3'), kinds=KINDS2, max_defunct=0, renew=True, suspend=True), full),
-        ('v4-renew-2sw-noks', dict(two, switches=('ks2', 'ks3'), kinds=KINDS2, max_defunct=0, renew=True, suspend=True), full),
+        # (max_task_faults = 1: one of the USEs a task sends itself is answered with an error / its connection is lost)
+        ('v4-renew-2sw', dict(two, ks0='ks1', switches=('ks2', 'ks3'), kinds=KINDS2, max_defunct=0, renew=True, suspend=True,
+                              max_task_faults=1), full),
+        ('v4-renew-2sw-noks', dict(two, switches=('ks2', 'ks3'), kinds=KINDS2, max_defunct=0, renew=True, suspend=True,
+                                   max_task_faults=1), full),
         ('v2-core1-renew-2sw', dict(two, proto=2, core=1, ks0='ks1', switches=('ks2', 'ks3'), kinds=KINDS2, max_defunct=0,
-                                    renew=True, suspend=True), full),
-        ('v4-replace-2sw-suspend', dict(two, ks0='ks1', switches=('ks2', 'ks3'), kinds=KINDS2, suspend=True), full),
+                                    renew=True, suspend=True, max_task_faults=1), full),
+        ('v4-replace-2sw-suspend', dict(two, ks0='ks1', switches=('ks2', 'ks3'), kinds=KINDS2, suspend=True,
+                                        max_task_faults=1), full),
     ]
     if ctx.thorough:
         cfgs = [
@@ -141,20 +169,25 @@ def e_configs(ctx):
             ('v4-orphan', dict(two, kinds=KINDS2, max_orphan=1), full),
             ('v4-orphan-ks1-setks', dict(two, kinds=KINDS2, max_orphan=1, ks0='ks1', entry='set_keyspace'), full),
             ('v4-orphan-3hosts', dict(never, kinds=KINDS2, max_orphan=1, max_defunct=0), full),
-            ('v4-renew-2sw', dict(two, ks0='ks1', switches=('ks2', 'ks3'), max_defunct=0, renew=True, suspend=True), full),
-            ('v4-renew-2sw-noks', dict(two, switches=('ks2', 'ks3'), kinds=KINDS2, max_defunct=0, renew=True, suspend=True), full),
+            ('v4-renew-2sw', dict(two, ks0='ks1', switches=('ks2', 'ks3'), max_defunct=0, renew=True, suspend=True,
+                                  max_task_faults=1), full),
+            ('v4-renew-2sw-noks', dict(two, switches=('ks2', 'ks3'), kinds=KINDS2, max_defunct=0, renew=True, suspend=True,
+                                       max_task_faults=1), full),
             ('v4-renew-2sw-setks', dict(two, ks0='ks1', entry='set_keyspace', switches=('ks2', 'ks3'), kinds=KINDS2, max_defunct=0,
-                                        renew=True, suspend=True), full),
+                                        renew=True, suspend=True, max_task_faults=1), full),
             ('v4-renew-2sw-back', dict(two, ks0='ks1', switches=('ks2', 'ks1'), kinds=KINDS2, max_defunct=0, renew=True,
-                                       suspend=True), full),
+                                       suspend=True, max_task_faults=1), full),
             ('v4-renew-2sw-loss', dict(two, ks0='ks1', switches=('ks2', 'ks3'), kinds=KINDS2, renew=True, suspend=True), full),
             ('v4-renew-2sw-3hosts', dict(never, ks0='ks1', switches=('ks2', 'ks3'), kinds=KINDS2, max_defunct=0, renew=True,
-                                         suspend=True), full),
+                                         suspend=True, max_task_faults=1), full),
+            ('v4-renew-2sw-convict', dict(base, hosts=2, ks0='ks1', switches=('ks2', 'ks3'), kinds=KINDS2, max_defunct=0,
+                                          renew=True, suspend=True, max_task_faults=1), full),
             ('v2-core1-renew-2sw', dict(two, proto=2, core=1, ks0='ks1', switches=('ks2', 'ks3'), kinds=KINDS2, max_defunct=0,
-                                        renew=True, suspend=True), full),
-            ('v4-replace-2sw-suspend', dict(two, ks0='ks1', switches=('ks2', 'ks3'), kinds=KINDS2, suspend=True), full),
+                                        renew=True, suspend=True, max_task_faults=1), full),
+            ('v4-replace-2sw-suspend', dict(two, ks0='ks1', switches=('ks2', 'ks3'), kinds=KINDS2, suspend=True,
+                                            max_task_faults=1), full),
             ('v2-core1-replace-2sw-suspend', dict(two, proto=2, core=1, ks0='ks1', switches=('ks2', 'ks3'), kinds=KINDS2,
-                                                  suspend=True), full),
+                                                  suspend=True, max_task_faults=1), full),
         ]
     return cfgs
 
@@ -169,6 +202,10 @@ def s_configs(ctx):
         # two switches while the pool is being created (application thread; blocking points and the arrival of
         # each USE result are free choices, so bound 0 already covers every order of the three parties at their waits)
         ('renew-v4-ks1-2sw', dict(base, scenario='renew', ks0='ks1', switches=('ks2', 'ks3')), 0),
+        # the node fails one of the USEs the executor thread sends itself (a choice at each of them); scheduling points
+        # at the virtual primitives and the lines of pool creation / replacement and of the hand-over of the answer
+        ('renew-v4-ks1-own-use-fails', dict(base, scenario='renew', ks0='ks1', **OWN_USE_FAILS), 1),
+        ('replace-v4-own-use-fails', dict(base, scenario='replace', **OWN_USE_FAILS), 1),
     ]
     if ctx.thorough:
         cfgs = [
@@ -184,6 +221,14 @@ def s_configs(ctx):
             ('renew-v4-ks1-2sw', dict(base, scenario='renew', ks0='ks1', switches=('ks2', 'ks3')), 0),
             ('renew-v2-ks1-2sw', dict(base, scenario='renew', proto=2, core=1, ks0='ks1', switches=('ks2', 'ks3')), 0),
             ('replace-v4-ks1-2sw', dict(base, scenario='replace', ks0='ks1', switches=('ks2', 'ks3')), 0),
+            ('renew-v4-ks1-own-use-fails', dict(base, scenario='renew', ks0='ks1', **OWN_USE_FAILS), 1),
+            ('renew-v2-ks1-own-use-fails', dict(base, scenario='renew', ks0='ks1', proto=2, core=1, **OWN_USE_FAILS), 1),
+            ('replace-v4-own-use-fails', dict(base, scenario='replace', **OWN_USE_FAILS), 1),
+            ('replace-v4-ks1-own-use-fails', dict(base, scenario='replace', ks0='ks1', **OWN_USE_FAILS), 1),
+            ('replace-v2-own-use-fails', dict(base, scenario='replace', proto=2, core=1, **OWN_USE_FAILS), 1),
+            ('replace-orphaned-v4-own-use-fails', dict(base, scenario='replace-orphaned', **OWN_USE_FAILS), 1),
+            ('renew-v4-ks1-2sw-own-use-fails', dict(base, scenario='renew', ks0='ks1', switches=('ks2', 'ks3'),
+                                                    **OWN_USE_FAILS), 0),
         ]
     return cfgs
 
@@ -221,23 +266,36 @@ def run(ctx):
     if ctx.thorough:
         dedup_differential(ctx)
     explore.close_pool()
-    for name, params, bound in s_configs(ctx):
-        sched.explore(ctx, 'c20-' + name, sched_harness, params, bound)
+    # (the cyclic collection after an execution costs more than the execution itself: collect after every 8th; the
+    # collector is off inside every execution whatever this is, see sched.gc_quiet)
+    gc_every, sched.GC_EVERY = sched.GC_EVERY, 8
+    try:
+        for name, params, bound in s_configs(ctx):
+            sched.explore(ctx, 'c20-' + name, sched_harness, params, bound)
+    finally:
+        sched.GC_EVERY = gc_every
     ctx.cov['preemption_bound'] = max(b for _, _, b in s_configs(ctx))
     ctx.cov['rule'] = ('history layer: state = event history replayed on a fresh real Session, deduplicated on (future, session keyspace, '
                        'pools, hosts, connections incl. server-side keyspace, held requests, queued/scheduled tasks, timers, oracle memory, '
                        'USEs sent by executor tasks and whether a task is suspended / can continue); '
                        'transitions = executions; non-trivial = distinct state reached after the switch arrived in which a USE was failed, '
-                       'a connection was lost or marked for replacement, some pool was not open or was being created, or the switch is not '
-                       'the first one.  '
+                       'a connection was lost or marked for replacement, some pool was not open or was being created, the switch is not '
+                       'the first one, or a USE of an executor task was failed.  '
                        'Schedule layer: executions = distinct schedules within the '
-                       'preemption bound; non-trivial = a non-default scheduling choice was taken.  outcomes = ([for a later switch: same/other '
+                       'preemption bound; non-trivial = a non-default scheduling choice was taken or a USE of the executor thread was failed.  '
+                       'outcomes = ([for a later switch: same/other '
                        'target, outcomes of the earlier switches,] pool situations when the switch arrived | scenario, failure kinds '
-                       'injected in this switch, outcome of the switch after the default continuation)')
+                       'injected in this switch (own-USE-<kind>: on a USE of an executor task), outcome of the switch after the default '
+                       'continuation)')
     ctx.assume('handlers are atomic with respect to each other in the history layer; source-line atomicity in the schedule layer (DESIGN.md 3.1)')
     ctx.assume('virtual server answers are well-formed protocol v4 / v2 frames; a USE answered successfully is selected server-side')
-    ctx.assume('USEs sent from executor tasks (replacement connections, new pools) are answered successfully by the server '
-               '(suspended-task configurations: at a moment the explorer chooses, before the wait for them times out)')
+    ctx.assume('USEs sent from executor tasks (replacement connections, new pools) are answered by the server: successfully in the '
+               'configurations with atomic tasks; in the suspended-task configurations and the own-use-fails schedule scenarios at most '
+               'one of them per history / execution fails (InvalidRequest, server error, connection lost while it is pending), and '
+               'the answer comes before the wait for it times out')
+    ctx.assume('a USE that an executor task sends itself on a connection that is not in service yet (new pool, replacement '
+               'connection) is not a USE of the switch: its failure need not be reported by the switch, but no connection on which '
+               'it failed may carry a request after a switch that reported success (clause 2 of the oracle)')
     ctx.assume('suspended-task configurations: one executor worker (no other task starts while one is suspended in a wait)')
     ctx.assume('a client-side request timeout is not a completion of the switch (the no-timeout configurations make this moot)')
     ctx.assume('one keyspace switch at a time (the next one is issued after the previous one completed and no USE is held); '
